@@ -311,6 +311,10 @@ def _nested(spec, tid):
         lctx.set_start_method(spec["default_method"], force=True)
         out["default_method"] = spec["default_method"]
     kw = dict(spec.get("kw", {}))
+    if spec.get("init_nested") is not None:
+        # the workers of THIS pool build a further executor in their initializer (used later by 'use_init_nested' tasks)
+        kw["initializer"] = init_nested
+        kw["initargs"] = (spec["init_nested"],)
     try:
         if spec.get("kind", "reusable") == "reusable":
             from loky import get_reusable_executor
@@ -336,6 +340,51 @@ def _nested(spec, tid):
         from loky.backend import context as lctx
 
         lctx.set_start_method(None, force=True)
+    out["sub"] = _run_subs(ex, spec, tid)
+    return ["nested", tid, out]
+
+
+INIT_NESTED = None
+
+
+def init_nested(spec):
+    """Initializer of a nested pool's worker: builds one more executor and keeps it for the tasks of this worker.
+    Records the depth seen *while the initializer runs* and the outcome of the construction."""
+    global INIT_NESTED
+    info = {"depth": _depth(), "pid": os.getpid(), "in_initializer": True}
+    kw = dict(spec.get("kw", {}))
+    ex = None
+    try:
+        if spec.get("kind", "plain") == "reusable":
+            from loky import get_reusable_executor
+
+            ex = get_reusable_executor(**kw)
+        else:
+            from loky import ProcessPoolExecutor
+
+            ctx = kw.pop("context", None)
+            if ctx is not None:
+                from loky.backend import get_context
+
+                kw["context"] = get_context(ctx)
+            ex = ProcessPoolExecutor(**kw)
+        info["construct"] = "ok"
+    except BaseException as e:
+        info["construct"] = type(e).__name__
+        info["construct_msg"] = str(e)[:200]
+    _log("nested_construct", tid="init", res=info["construct"], depth=info["depth"], in_initializer=True)
+    INIT_NESTED = (info, ex)
+
+
+def _use_init_nested(spec, tid):
+    info, ex = INIT_NESTED if INIT_NESTED is not None else ({"depth": None, "construct": "initializer_did_not_run"}, None)
+    info = dict(info, task_depth=_depth())
+    if ex is not None:
+        info["sub"] = _run_subs(ex, dict(spec, then="wait"), tid)
+    return ["nested", tid, info]
+
+
+def _run_subs(ex, spec, tid):
     futs = []
     for i, s in enumerate(spec.get("sub", [])):
         stid = "%s/%d" % (tid, i)
@@ -359,8 +408,7 @@ def _nested(spec, tid):
         # leave the nested pool running and block: used by forced-shutdown cases
         _log("nested_running", tid=tid, n=len(futs))
         time.sleep(spec.get("hang", 120))
-    out["sub"] = res
-    return ["nested", tid, out]
+    return res
 
 
 def run(spec, tid, *extra):
@@ -405,6 +453,8 @@ def run(spec, tid, *extra):
             r = _rendezvous(spec, tid)
         elif k == "nested":
             r = _nested(spec, tid)
+        elif k == "use_init_nested":
+            r = _use_init_nested(spec, tid)
         elif k == "spawn_subprocess":
             import subprocess
 
